@@ -101,6 +101,30 @@ CHECKS = [
         "text": "Batches of generated definitions and their re-declared variants (permuted order, set<->list, reversed dict insertion) are generated by child interpreters with different hash seeds; all header/source hashes and Python layouts of a definition must be identical across seeds, variants and repeated generation. The run measures that the raw set iteration order really differed between children. Exploration; hash seeds sampled.",
         "note": "4 (quick) / 24 (thorough) hash seeds; a leak that needs one specific seed can be missed.",
     },
+    {
+        "property_id": "C16",
+        "technique": "property-based testing (Hypothesis): generated estimators x data matrices; transform vs the exported filter run by hand and vs an independent mpmath EKF fold; score decomposition, purity and repeatability invariants",
+        "text": "Generated small estimators and data matrices: transform must equal (1e-12) the NIS obtained by driving export_python() by hand in the documented order and (first rows) an independent mpmath EKF that slices columns by name; non-negativity; mahalanobis = flattened transform; score = documented weighted combination (also with sample_weight); get_params unchanged by every call; repeated calls bit-identical. Exploration.",
+        "note": "Models without division by state/control symbols (adapter starts at the zero state); independent reference compared on the first three rows only because the fold amplifies rounding row by row.",
+    },
+    {
+        "property_id": "C17",
+        "technique": "property-based testing (Hypothesis): round-trip / single-field-change checks over every Config field, flatten round-trip, and generated fits judged by an outcome predicate",
+        "text": "Generated estimators: get-then-set, clone, set_params(field) for every Config field (exactly that field changes), unknown names refused, noise flatten/unflatten round-trip; generated training matrices: fit must end in MinimizationFailure or return the same estimator with unchanged model/sensors/calibration/config, identical noise key sets, finite magnitudes and positive process noise; any other exception is a violation. Exploration.",
+        "note": "Explicit Config only (the property's quantifier); small models and 6..24 training rows to bound the cost of a fit; data with undefined initial score are skipped and counted.",
+    },
+    {
+        "property_id": "C18",
+        "technique": "model-based property-based testing: exhaustive (start, target) search pairs against an own BFS; generated transition sequences with history invariants; generated hyper-parameter grids and data through real fits",
+        "text": "All (start state, target) pairs incl. non-StateId targets are enumerated against an independent BFS over the declared graph (validity + minimal length, ValueError otherwise); generated transition sequences check history, immutability of earlier histories and that only declared transitions exist; generated grids/data: too-small data refused with ModelFitError, successful fits select every governed config field from its grid list, exported filter carries the selected values, path from search reaches Fit_Model. Exploration; search sub-domain exhaustive.",
+        "note": "Grids of <=4 candidates over a small fixed model; fit outcomes other than success/too-small are counted, not judged.",
+    },
+    {
+        "property_id": "C19",
+        "technique": "property-based testing (Hypothesis): generated orientations (non-unit too), biases, gravity, dt and IMU samples against hand-written Hamilton-product kinematics in mpmath; symbolic expressions and compiled model (CSE on/off)",
+        "text": "Generated points compared with an independent quaternion-kinematics oracle for every state of the reference strapdown model, both for the symbolic expressions (sympy evalf at named inputs) and for the compiled Python model with CSE on and off. Exploration.",
+        "note": "Quaternion norms in [0.3,3]; bounded input boxes; tolerance 1e-9*abs-scale.",
+    },
 ]
 
 _PENDING = "check not built yet in this revision of /verif (planned in DESIGN.md section 6)"
